@@ -1,5 +1,6 @@
 import MetapypeModel.Model.Normalize
 import MetapypeModel.Model.Tree
+import MetapypeModel.Model.Equal
 /-
   `metapype_io._process_element` / `_format_extras` / `_with_comment_tails`
   (metapype_io.py:82-175 after the fixes of D6a-c) on the infoset lxml hands over:
@@ -87,13 +88,16 @@ def processElement (clean collapse : Bool) (literals : List String) : XN → Lis
       let tl := if clean then cleanText collapse false tail' else tail'
       let attrs : Dict := attrib.foldl (fun d kv => if kv.1.toList.contains '{' then d else d.set kv.1 kv.2) []
       let extras : Dict := attrib.foldl (fun d kv => if kv.1.toList.contains '{' then d.set (formatExtras kv.1 nsmap) kv.2 else d) []
-      some (.mk "" ln content tl pfx attrs extras nsmap (processKids clean collapse literals kids))
-def processKids (clean collapse : Bool) (literals : List String) : List XN → List Tree
+      some (.mk "" ln content tl pfx attrs extras nsmap (processKids clean collapse literals nsmap kids))
+/-- children: comments are skipped; a child whose map equals the parent's shares the parent's dict object
+    (`add_child`), which is only visible here as the parent's key order -/
+def processKids (clean collapse : Bool) (literals : List String) (parentNs : Dict) : List XN → List Tree
   | [] => []
   | k :: ks =>
       match processElement clean collapse literals k ks with
-      | some t => t :: processKids clean collapse literals ks
-      | none => processKids clean collapse literals ks
+      | some (.mk i n c tl p a e ns cs) =>
+          (.mk i n c tl p a e (if dictEq parentNs ns then parentNs else ns) cs) :: processKids clean collapse literals parentNs ks
+      | none => processKids clean collapse literals parentNs ks
 end
 
 end Metapype
